@@ -46,7 +46,12 @@ def _(E, m, a, c0):
 @pattern(r'core::str::<impl str>::(strip_prefix|strip_suffix)')
 def _(E, m, a, c0):
     r, cs = sref(E, a[0]); alts = pat_chars(E, a[1]); alt = alts[0]
-    if len(alts) != 1: raise Missing('strip with a multi-alternative pattern')
+    if len(alts) != 1:
+        if any(len(x) != 1 for x in alts): raise Missing('strip with a multi-alternative multi-char pattern')
+        pos = 0 if m.group(1) == 'strip_prefix' else len(cs) - 1       # [char; N] pattern: any of the chars
+        if cs and E.branch(z3.Or(*[cs[pos] == x[0] for x in alts])):
+            return opt(Ref(r.cell, list(r.path) + [('sub', 1, 0) if pos == 0 else ('sub', 0, 1)]))
+        return opt()
     if m.group(1) == 'strip_prefix':
         if len(alt) <= len(cs) and E.branch(match_at(E, cs, 0, [alt])): return opt(Ref(r.cell, list(r.path) + [('sub', len(alt), 0)]))
         return opt()
@@ -74,6 +79,17 @@ def _(E, m, a, c0):
 @pattern(r'core::str::<impl str>::(chars|bytes|char_indices)')
 def _(E, m, a, c0):
     r, cs = sref(E, a[0])
+    if m.group(1) == 'bytes': return mk_iter(cs)
+    vals = [z3.simplify(c) for c in cs]
+    if all(z3.is_int_value(v) for v in vals) and any(v.as_long() >= 128 for v in vals):
+        # concrete non-ASCII text: decode the UTF-8 bytes into chars
+        try: text = bytes(v.as_long() for v in vals).decode('utf-8')
+        except Exception: raise Missing('str::chars on invalid UTF-8')
+        if m.group(1) == 'char_indices':
+            out = []; off = 0
+            for ch in text: out.append(Tup([z3.IntVal(off), z3.IntVal(ord(ch))])); off += len(ch.encode())
+            return mk_iter(out)
+        return mk_iter([z3.IntVal(ord(ch)) for ch in text])
     if m.group(1) == 'char_indices': return mk_iter([Tup([z3.IntVal(i), c]) for i, c in enumerate(cs)])
     return mk_iter(cs)
 @pfirst(r'<(?:std::str::)?(Chars|Bytes|CharIndices)(?:<.*>)? as (?:Iterator|DoubleEndedIterator)>::(next|next_back)')
